@@ -14,3 +14,7 @@ def rules(ctx):
     S.c02_r2_register_before_root(ctx)
     S.c06_r6_restore(ctx)
     S.refcount_rules(ctx)
+    S.c05_r1_abort_path(ctx)
+    S.c02_r3_free_horizon(ctx)
+    S.c06_r5_tracking(ctx)
+    S.c02_r4_who_frees(ctx)
